@@ -321,6 +321,10 @@ def evaluate(ctx, report, cases):
             if not spec_ok:
                 report.corr_break("spec-selfcheck", {"kernel": kernel, **p, "lean_spec": str(sm)[:300], "python_spec": str(exp)[:300]})
         # normalise the real result
+        if real.get("crash") == -999:
+            # the worker never got to this case (restart budget exhausted): no verdict, recorded as lost coverage
+            report.count("not-executed")
+            continue
         if "crash" in real:
             r = {"crash": real["crash"]}
         elif "exc" in real:
